@@ -139,7 +139,7 @@ package phase4
 //@   requires[idx|C04,C09,C12] forall b int, k int :: 0 <= b && b < len(g.Layers) && 0 <= k && k < len(g.Layers[b].Nodes) ==> g.Layers[b].Nodes[k].Layer == b
 //@   ensures[sep|C04,C09,C12] sepOK(g, params.NodeSpacing)
 //@   ensures[nonneg|C04,C09,C12] xNonNeg(g)
-//@   ensures[height|C04,C09,C12] heightsOK(g)
+//@   ensures[height|C04,C09,C12] heightsOK(g) && (old(bandHeightsNonNeg(g)) ==> bandHeightsNonNeg(g))
 //@   assert[step|C04,C09,C12] before "n.X = xcoord[n]" : d > 0 ==> xsep(g, c8, d - 1, xcoord, blockwidth, roots, params.NodeSpacing)
 //@   loop range(xcoord)#1
 //@     invariant blockmax != nil && xcoord != nil && blockmax != xcoord
@@ -165,11 +165,13 @@ package phase4
 //@   loop range(g.Layers)#2 index c7
 //@     invariant[fits|C04,C09,C12] forall b int :: 0 <= b && b < c7 ==> len(g.Layers[b].Nodes) <= lmax
 //@   loop range(g.Layers)#3 index c8
+//@     invariant[|C04,C09,C12] old(bandHeightsNonNeg(g)) ==> bandHeightsNonNeg(g)
 //@     invariant[|C04,C09,C12] forall b int, p int, q int :: 0 <= b && b < c8 && 0 <= p && p < q && q < len(g.Layers[b].Nodes) ==>
 //@       g.Layers[b].Nodes[p].X + g.Layers[b].Nodes[p].W + params.NodeSpacing <= g.Layers[b].Nodes[q].X
 //@     invariant[|C04,C09,C12] forall b int, k int :: 0 <= b && b < c8 && 0 <= k && k < len(g.Layers[b].Nodes) ==>
 //@       g.Layers[b].Nodes[k].X >= 0.0 && g.Layers[b].H >= g.Layers[b].Nodes[k].H
 //@   loop range(l.Nodes)#1 index d
+//@     invariant[|C04,C09,C12] old(bandHeightsNonNeg(g)) ==> bandHeightsNonNeg(g)
 //@     invariant[|C04,C09,C12] forall p int, q int :: 0 <= p && p < q && q < d ==>
 //@       xcoord[l.Nodes[p]] + blockwidth[roots[l.Nodes[p]]] + params.NodeSpacing <= xcoord[l.Nodes[q]]
 //@     invariant[|C04,C09,C12] forall k int :: 0 <= k && k < d ==> l.Nodes[k].X == xcoord[l.Nodes[k]] && l.H >= l.Nodes[k].H
@@ -261,3 +263,14 @@ package phase4
 //@   requires[|C01] forall k int :: 0 <= k && k < 4 ==> layoutXCoords[k] != nil && !has(layoutXCoords[k], nil)
 //@   loop range(layoutXCoords)#1 index a
 //@     invariant[|C01] 0 <= leastWidth && leastWidth < 4
+
+// phase4.Alg.Process (C04): the positioner's separation survives the y assignment. For the three positioners under
+// contract the driver hands back a component whose bands are separated in x (sepOK), start at x >= 0, are at least as
+// tall as their nodes, and sit at bandY - which is what lemma C04_disjoint needs. (The one-node shortcut and the
+// NetworkSimplex / Brandes-Koepf positioners are outside this contract.)
+//@ func Alg.Process
+//@   requires[in|C04] g != nil && len(g.Nodes) != 1 && (alg == VerticalAlign || alg == PackRight || alg == SinkColoring)
+//@   requires[in2|C04] bandsDistinct(g) && sizesNonNeg(g) && bandHeightsNonNeg(g) && params.NodeSpacing >= 0.0 && params.LayerSpacing >= 0.0
+//@   requires[sink|C04] alg == SinkColoring ==> upward() && (forall b int, k int :: 0 <= b && b < len(g.Layers) && 0 <= k && k < len(g.Layers[b].Nodes) ==> g.Layers[b].Nodes[k].Layer == b)
+//@   ensures[x|C04] sepOK(g, params.NodeSpacing) && xNonNeg(g) && heightsOK(g) && bandHeightsNonNeg(g)
+//@   ensures[y|C04] bandYOK(g, params.LayerSpacing)
